@@ -322,6 +322,11 @@ impl Engine {
         self.state.get_negotiated_settings().clone()
     }
 
+    /// true while an operation has been dequeued for encoding and is not yet fully encoded
+    pub fn has_current_operation(&self) -> bool {
+        self.state.current_operation.is_some()
+    }
+
     pub fn snapshot(&self) -> Snapshot {
         let state = &self.state;
         let current_operation = state.current_operation.map(|id| {
